@@ -238,6 +238,66 @@ def run_case(c):
     return Out(labels, overlap)
 
 
+def stop_path_cases(tier, seed):
+    return [{"first": k, "fatal": f} for k in ("sign_unauth", "getPubKey", "state")
+            for f in ("hb-malformed-der", "reconnect-into-ui-heartbeat")]
+
+
+def run_stop_path(c):
+    """Requests served one after another over TCP, the last of which ends on a path where the
+    manager stops. Whatever that client is sent, it must not be the reply computed for an
+    earlier client."""
+    from checks.c03 import _free_server, _talk
+    from vlib.device import UIHB
+    w = mw.default_world()
+    w.adv_plan = {"final": "total"}
+    w.sig_der = refs.der_sig(b"\x11" * 20, b"\x22" * 20)
+    p = mw.stack(w, init=False)
+    srv, t, result, port = _free_server(p)
+    try:
+        first = make_request(c["first"], "0.0", 3, 4)
+        rep1 = _talk(port, json.dumps(first).encode())
+        r1 = mw.parse_reply(rep1)
+        if r1 is None or r1["errorcode"] != 0:
+            raise Violation("stop-path-setup", repr(rep1[:100]))
+        if c["fatal"] == "hb-malformed-der":
+            w.hb["sig"] = b"\x30"          # the device hands out a truncated signature
+            last = make_request("signerHb", "1.0", 5, 6)
+        else:
+            w.faults[w.nex] = "read"
+            mid = _talk(port, json.dumps(make_request("getPubKey", "1.0", 1, 1)).encode())
+            if mw.parse_reply(mid) is None:
+                raise Violation("stop-path-setup", repr(mid[:100]))
+            rep1 = mid
+            w.mode = UIHB                  # the device comes back outside the signer
+            last = make_request("state", "2.0", 5, 6)
+        try:
+            rep2 = _talk(port, json.dumps(last).encode())
+        except OSError as e:
+            rep2 = b""
+        mw.check_sim(w)
+        try:
+            o2 = json.loads(rep2.decode()) if rep2.strip() else {}
+        except Exception:
+            o2 = None
+        o1 = json.loads(rep1.decode())
+        labels = ["stop-path:" + c["fatal"]]
+        if isinstance(o2, dict):
+            foreign = [k for k in o2 if k != "errorcode" and k in o1 and o2[k] == o1[k]]
+            if foreign:
+                raise Violation("reply-of-another-request", "the request that stopped the "
+                                "manager (%s after %s) was answered with fields %r of the "
+                                "previous client's reply %s" % (c["fatal"], c["first"], foreign,
+                                                                rep1[:160]))
+    finally:
+        try:
+            srv.server.shutdown()
+        except Exception:
+            pass
+        t.join(timeout=5)
+    return Out(labels, True)
+
+
 def stall_cases(tier, seed):
     """A slow device: one multi-APDU request whose exchanges each stay under the 10 s exchange
     time-out of the device link but add up to more than it, with another client arriving in the
@@ -255,7 +315,10 @@ def stall_cases(tier, seed):
 
 def stages(tier):
     from vlib.runner import EnumStage
-    return [EnumStage("slow-device", stall_cases, run_case,
+    return [EnumStage("stop-path", stop_path_cases, run_stop_path,
+                      exhaustive={"quick": True, "thorough": True},
+                      budget_s={"quick": 60, "thorough": 60}, workers=6),
+            EnumStage("slow-device", stall_cases, run_case,
                       exhaustive={"quick": True, "thorough": True},
                       budget_s={"quick": 120, "thorough": 120}, workers=2),
             HypStage("schedules", lambda t: cases(t), run_case, {"quick": 6, "thorough": 150},
